@@ -15,7 +15,7 @@ RULE = ('inputs of 13-60 queries (classes noisy/partial/chimeric/indel/sandwich 
         'order, and a completion log; plus the in-process M-serial run. Oracle: every output file byte-identical across '
         'all runs of one input apart from the "# coma" argument echo. Evidence reports worker counts, the number of '
         'distinct completion orders reconstructed from the logs and the spread of queries over worker pids. '
-        'Per input also two side inputs of 2-7 queries (1-4 cut from the reference plus 1-3 unrelated/degenerate molecules) run with -c 1 against -c in {2, n, n+1, 8, 16}, i.e. more workers than queries. Non-trivial = input for which >= 2 distinct completion orders were observed; distinct by input hash.')
+        'Per input also two side inputs of 2-7 queries (1-4 cut from the reference plus 1-3 unrelated/degenerate molecules) run with -c 1 against -c in {2, n, n+1, 8, 16}, i.e. more workers than queries; and one input with a query T+M+T whose two second-pass fragments get exactly equal confidence (flank copies a multiple of the seeding resolution apart), run with -c 2/4 and five jittered schedules. Non-trivial = input for which >= 2 distinct completion orders were observed; distinct by input hash.')
 ASSUMPTIONS = ['the hostname / input-path header lines are equal because all runs of one input happen on this machine on the same files',
                'the jitter Extensions only sleep and append to a log; they are dispatched at existing dispatch points']
 MINIMUMS = {'inputs': {'quick': 5, 'thorough': 30}, 'cli-runs': {'quick': 40, 'thorough': 500}, 'jittered-runs': {'quick': 10, 'thorough': 150},
@@ -54,7 +54,7 @@ def norm(files):
 
 def judge(case, wd, sh, tier='quick', light=False):
     rng = rng_for('C09sched', case['sched_seed'])
-    slim = lambda focus: dict(pipeline.slim_case(case), kind='e2e', sched_seed=case['sched_seed'], focus=focus)
+    slim = lambda focus: dict(pipeline.slim_case(case), kind='e2e', sched_seed=case['sched_seed'], focus=focus, tied=bool(case.get('tied')))
     sh.evaluations += 1
     sh.count('inputs')
     ref_run = pipeline.run_cli(case, wd, tag='c', cpus=1)
@@ -77,7 +77,12 @@ def judge(case, wd, sh, tier='quick', light=False):
     for k in range(njit):
         runs.append(('jitter', rng.choice([2, 3, 4, 8, 16]), {}, rng.randint(0, 10 ** 6)))
     runs.append(('jitter', 1, {}, rng.randint(0, 10 ** 6)))
-    if light:
+    if light == 'tied':
+        # equal-confidence fragments: a few plain worker counts and jittered schedules in which the two fragments of the
+        # tied query finish in either order
+        runs = [('cli', c, {}, None) for c in (2, 4)] + [('jitter', c, {}, rng.randint(0, 10 ** 6)) for c in (2, 2, 3, 4, 8)]
+        sh.count('tied-flank-inputs')
+    elif light:
         # side input with fewer queries than workers: only plain CLI runs with worker counts around and above the query count
         nq = len(case['queries'])
         runs = [('cli', c, {}, None) for c in sorted({2, nq, nq + 1, 8, 16})]
@@ -125,6 +130,8 @@ def judge(case, wd, sh, tier='quick', light=False):
             diffs = [(x[:90], y[:90]) for x, y in zip(a, b) if x != y][:2]
             sh.violation('output-depends-on-workers-or-run', 'file %r differs between "cli -c 1" and "%s": %d vs %d records; first differing lines %s' % (
                 d[0], what, len(a), len(b), diffs), slim({'run': what, 'cpus': c, 'jseed': jseed}))
+    if light == 'tied':
+        return
     if light:
         sh.count('few-query-inputs-with-a-query-without-record', int(len(text.record_lines(ref_run.files.get('', ''))) < len(case['queries'])))
         return
@@ -141,6 +148,49 @@ def judge(case, wd, sh, tier='quick', light=False):
                'distinct completion orders seen': len(orders),
                'queries per worker pid (by -c)': {str(c): sorted(v.values(), reverse=True)[:16] for c, v in pids_per_c.items()},
                'records per file': {k: len(text.record_lines(v)) for k, v in ref_run.files.items()}, 'verdict': 'all byte-identical'}, limit=3)
+
+
+def tied_case(rng):
+    """One query T + M + T: the middle M maps to one reference locus, the two identical flanks T (their copies a multiple of
+    the 1400 bp seeding resolution apart) map to one other locus, so the second pass gets two fragments of the same query id
+    with exactly the same confidence; which one survives must not depend on which worker finishes first. Plus a few
+    ordinary queries to keep several workers busy."""
+    g = lambda n: [rng.randrange(4000, 16000) for _ in range(n)]
+    T, M = g(rng.randint(7, 9)), g(rng.randint(11, 14))
+    ref, pos = [], 10000
+    for block in (None, T, None, M, None):
+        if block is None:
+            for x in g(rng.randint(40, 70)):
+                pos += x
+                ref.append(pos)
+        else:
+            pos += rng.randrange(20000, 30000)
+            ref.append(pos)
+            for x in block:
+                pos += x
+                ref.append(pos)
+            pos += rng.randrange(20000, 30000)
+    q = [0]
+    for x in T:
+        q.append(q[-1] + x)
+    q.append(q[-1] + 21000)
+    for x in M:
+        q.append(q[-1] + x)
+    q.append(((q[-1] + 21000) // 1400 + 1) * 1400)
+    for x in T:
+        q.append(q[-1] + x)
+    refs = [[1, float(pos + 10000), [float(x) for x in ref]]]
+    queries, qclass = [[7, float(q[-1] + 1), [float(x) for x in q]]], {'7': 'tied-flanks'}
+    for j in range(rng.randint(3, 6)):
+        p2, length = gen.query_from_ref(rng, refs[0][2], rng.choice(['noisy', 'sandwich']), refs)
+        queries.append([8 + j, length, p2])
+        qclass[str(8 + j)] = 'filler'
+    rng.shuffle(queries)
+    P = dict(gen.DEFAULTS)
+    if rng.random() < 0.5:
+        P['diff'] = 2000000
+    return {'refs': refs, 'queries': queries, 'qclass': qclass, 'params': P, 'mode': rng.choice(gen.MODES),
+            'sched_seed': rng.randint(0, 10 ** 6), 'tied': True}
 
 
 def small_case(rng):
@@ -169,10 +219,15 @@ def run_shard(spec):
             wd2 = os.path.join(spec['workdir'], 'small%d_%d' % (i, j))
             os.makedirs(wd2, exist_ok=True)
             judge(small, wd2, sh, spec.get('tier', 'quick'), light=True)
+        tied = tied_case(rng_for('C09tied', spec['seed'], spec['shard'], i))
+        tied['gen'] = [spec['seed'], spec['shard'], i, 'tied']
+        wd3 = os.path.join(spec['workdir'], 'tied%d' % i)
+        os.makedirs(wd3, exist_ok=True)
+        judge(tied, wd3, sh, spec.get('tier', 'quick'), light='tied')
     return sh
 
 
 def replay(case):
     sh = Shard()
-    judge(case, case['workdir'], sh, light=len(case['queries']) <= 7)
+    judge(case, case['workdir'], sh, light='tied' if case.get('tied') else len(case['queries']) <= 7)
     return [{'key': v['key'], 'what': v['what']} for v in sh.violations]
